@@ -1035,6 +1035,11 @@ class Unit:
                     text = re.sub(r'(?<![\w:])Ordering::(Relaxed|SeqCst)', r'atomic_ordering::Ordering::\1', text)
                     self.log.add('R20(io::Error message/kind tests -> stand-in predicates)', site, n20 + n20b)
                     continue
+                if r == 'R23':
+                    text, n23 = re.subn(r'mem::size_of::<usize>\(\)', 'mem::size_of_usize()', text)
+                    text, n23b = re.subn(r'<P: AsRef<Path>>', '<P>', text)
+                    self.log.add('R23(mem::size_of::<usize>() -> stand-in; AsRef<Path> bound dropped)', site, n23 + n23b)
+                    continue
                 if r == 'R21':
                     text, n21 = re.subn(r'&self\.event_map\[([^\]]*?)\.\.\]', r'self.event_map.v_slice_from(\1, Tracked(w))', text)
                     self.log.add('R21(&MMAP[a..] (Deref<[u8]>) -> MMAP.v_slice_from(a, ghost world))', site, n21)
@@ -1080,7 +1085,7 @@ class Unit:
             # pre/postcondition alone (no loop contracts, no hints).  Otherwise the loss is reported (undecided).
             c2 = Contract(c.file, c.path, ret=c.ret, requires=c.requires, ensures=c.ensures, decreases=c.decreases,
                           ghostparams=c.ghostparams, ghostargs=c.ghostargs, attrs=c.attrs,
-                          rewrites=[r for r in c.rewrites if r in ('R5', 'R20', 'R21') or r.startswith('R17')])
+                          rewrites=[r for r in c.rewrites if r in ('R5', 'R20', 'R21', 'R23') or r.startswith('R17')])
             c2.ats = [a for a in c.ats if a[0] == 'fn_start' and 'let ghost' not in a[2]]
             text = self.apply_rewrites(raw, site, c2)
             _, loops = find_loops(split_fn(text)[1])
